@@ -30,7 +30,7 @@ class TitlesHarness(h_lib.LibHarness):
         self.prog.overrides = {self.stub_pat: self.stub_document}
         counter = [100]
         src = ['a', 'd/x', 'd/e/c'][ctx.choose(3)]
-        urls = ['b', 'b.md', 'zz', 'e/c', '../b', 'a', 'https://e.x/p', 'HTTPS://E.X/P', 'mailto:m@e.x', 'MAILTO:m@e.x', 'Http://e.x']
+        urls = ['b', 'b.md', 'b#sec', 'zz', 'e/c', '../b', 'a', 'https://e.x/p', 'HTTPS://E.X/P', 'mailto:m@e.x', 'MAILTO:m@e.x', 'Http://e.x']
         url = urls[ctx.choose(len(urls))]
         place = ('block', 'inline', 'emph')[ctx.choose(3)]
         lt = ('Regular', 'WikiLink', 'WikiLinkPiped')[ctx.choose(3)]
@@ -112,13 +112,16 @@ class TitlesHarness(h_lib.LibHarness):
         o_url, o_title, o_lt, o_text = out
         ext = is_external(url)
         law('C06.link-kind-unchanged', o_lt == lt, info)
+        law('C01.link-kind-kept', o_lt == lt, info)
         if ext:
             law('C06.external-url-untouched', o_url == url, info)
+            law('C01.link-destination-kept', o_url == url, info)
             law('C06.external-link-text-kept', o_text == 'ORIG', info)
             if ctx: ctx.cover('external-kept')
             return
         tgt = resolve(url, src)
         law('C06.destination-unchanged', resolve(o_url, src) == tgt, dict(info, resolves_to=resolve(o_url, src), expected=tgt))
+        law('C01.link-destination-kept', resolve(o_url, src) == tgt, dict(info, resolves_to=resolve(o_url, src), expected=tgt))
         exists = tgt in NOTES
         has_title = exists and (headed.get(tgt, True))
         if lt == 'Regular' and has_title:
